@@ -101,6 +101,13 @@ def rule_451(ctx):
             if not any(p.issub("PathIOError", hn) and hn not in ("Exception", "BaseException") for hn in handler_names(h)):
                 continue
             good = True
+            for n_ in h.body:   # nothing in the handler may depend on the exception object (rendering it can raise or inject line breaks into the reply)
+                for c_ in walk_self(n_):
+                    if is_reply(c_, conn) and not all(isinstance(a_, ast.Constant) for a_ in c_.args):
+                        good = False
+                    if h.name and isinstance(c_, ast.Name) and c_.id == h.name and not any(isinstance(q_, ast.Call) and isinstance(q_.func, ast.Attribute) and isinstance(q_.func.value, ast.Name)
+                                                                                      and "log" in q_.func.value.id.lower() for q_ in _anc(p, c_)):
+                        good = False
             for ev, out in Cfg(lambda n: [], p.issub).seq(h.body):
                 codes = [c.args[0].value if c.args and isinstance(c.args[0], ast.Constant) else None for n in evaluated(ev) for c in walk_self(n) if is_reply(c, conn)]
                 if codes != ["451"] or out[0] not in ("continue", "fall"):
@@ -139,6 +146,13 @@ def rule_451(ctx):
                 if touches:
                     ctx.ob("C13.451", h, f"{name}: broad handler around a backend call re-raises", reraises,
                            f"{name}: a broad except around a backend call swallows PathIOError (no 451)", construct=f"{name}:broad except")
+
+
+def _anc(p, n):
+    q = p.parent.get(n)
+    while q is not None:
+        yield q
+        q = p.parent.get(q)
 
 
 def rule_nosuccess(ctx):
@@ -208,9 +222,15 @@ def rule_calls(ctx):
             ctx.fail("C13.CALLS", c, f"server calls the backend's private `{c.attr}` directly", construct=f"{p.fn_of(c)}:path_io.{c.attr}")
 
 
+def rule_close(ctx):
+    """a failure of the backend's close() must reach the worker (451), not be swallowed by the file context"""
+    from .c12 import rule_file
+    ctx.borrow(rule_file, {"C12.FILE": "C13.CLOSE"})
+
+
 def rule_data(ctx):
     ctx.rule("C13.DATA", "a backend failure at any await after the data stream was detached unwinds through the stream's context (peer sees EOF)")
     check_detach(ctx, "C13.DATA")
 
 
-RULES = [rule_univ, rule_451, rule_nosuccess, rule_calls, rule_data]
+RULES = [rule_univ, rule_451, rule_nosuccess, rule_calls, rule_data, rule_close]
